@@ -206,6 +206,27 @@ func setupWalk(sc walkScen) (env *walkEnv, fatal string) {
 			} else {
 				r = reply{fail: "exhausted"}
 			}
+			// THE NODE KNOWS ITS PAGING STATES: a request must carry exactly the state of the page served before it (none
+			// for the first page; UNPREPARED / failed-PREPARE entries do not change it). Any other state is answered like a
+			// real server answers a paging state it did not hand out: ERROR 0x2200 — so a wrong state shows in what the
+			// application receives (op `walk`, spec-backed), not only in the request log.
+			if k < len(sc.script) {
+				j := k - 1
+				for j >= 0 && (sc.script[j].fail == "u" || sc.script[j].fail == "p") {
+					j--
+				}
+				var want []byte
+				if j >= 0 && sc.script[j].fail == "" {
+					want = sc.script[j].state
+				}
+				var got []byte
+				if req.QFlags&0x08 != 0 {
+					got = req.PageState
+				}
+				if (j < 0 || sc.script[j].fail == "") && !bytes.Equal(want, got) {
+					r = reply{fail: "s", code: 0x2200}
+				}
+			}
 			mu.Unlock()
 			if sc.delay && req.QFlags&0x08 != 0 {
 				// PREFETCH RACING THE CONSUMER: with the answer to a follow-up request held for a moment, a consumer that
@@ -355,6 +376,7 @@ func (env *walkEnv) walk(sc walkScen) string {
 			return 0, false
 		}
 		probed := map[interface{}]bool{}
+		origState := map[interface{}][]byte{}
 		await := func(c *gocql.Iter) int {
 			tok := gocql.VerifC15NextToken(c)
 			if tok == nil {
@@ -369,6 +391,9 @@ func (env *walkEnv) walk(sc walkScen) string {
 			}
 			// started: the goroutine exists, so its request arrives
 			want := c.PageState()
+			if o, ok := origState[tok]; ok {
+				want = o // the caller has overwritten its view of the state (step m): the node is asked with the original
+			}
 			// 8 s are far more than a goroutine needs to put a request on the in-memory pipe, whatever the load; once a
 			// request has failed to arrive in this process (the code under test starts no fetch), later waits are short
 			wait := 8 * time.Second
@@ -438,6 +463,19 @@ func (env *walkEnv) walk(sc walkScen) string {
 				obs = append(obs, fmt.Sprintf("o=%d/%d/%s", c.NumRows(), ws, ps))
 			case st == "a":
 				obs = append(obs, fmt.Sprintf("a%d", await(cur())))
+			case st == "m":
+				// A CALLER THAT MUTATES WHAT THE API HANDED IT: the slice returned by Iter.PageState() is overwritten (every
+				// byte flipped); the driver's own copy — what the next page is requested with — must not change
+				p := cur().PageState()
+				if tok := gocql.VerifC15NextToken(cur()); tok != nil {
+					if _, ok := origState[tok]; !ok {
+						origState[tok] = append([]byte{}, p...)
+					}
+				}
+				for i := range p {
+					p[i] ^= 0xff
+				}
+				obs = append(obs, "m")
 			case st == "x":
 				// the caller cancels the query's context; the generator puts an `a` right before, so no fetch is in flight
 				env.cancel()
@@ -600,7 +638,11 @@ func (g *wgen) random() (walkScen, string) {
 		case 0, 1:
 			sc.steps = append(sc.steps, "o")
 		case 2:
-			sc.steps = append(sc.steps, "a")
+			if g.r.Intn(2) == 0 {
+				sc.steps = append(sc.steps, "m")
+			} else {
+				sc.steps = append(sc.steps, "a")
+			}
 		default:
 			k := 1 + g.r.Intn(4)
 			if g.r.Intn(4) == 0 {
@@ -681,6 +723,26 @@ func (g *wgen) compressed(emit func(walkScen, string)) {
 	}
 }
 
+// mutating: the caller overwrites the slice it got from PageState() — before the first row, mid-page (before and
+// after the prefetch threshold), at the end of the page — on every page, then goes on; every prefetch, API, kind
+func (g *wgen) mutating(emit func(walkScen, string)) {
+	for _, c := range walkConsumers {
+		for ki, kind := range kinds {
+			for pi, pf := range prefetches {
+				for k := 0; k <= 3; k++ {
+					g.next = 0
+					sc := walkScen{ver: 2 + (k+ki+pi)%4, consumer: c, prefetch: pf, pageSize: 5000, kind: kind, script: g.script([]int{3, 0, 3, 2}, 0, -1)}
+					if k > 0 {
+						sc.steps = append(sc.steps, "s"+strconv.Itoa(k))
+					}
+					sc.steps = append(sc.steps, "o", "m", "o", "s3", "m", "d")
+					emit(sc, fmt.Sprintf("walk-mut/%s/%s/pf%s", c, kind, pf))
+				}
+			}
+		}
+	}
+}
+
 func walkTier(r *vh.Rng, out *vh.Out, tier string) map[string]interface{} {
 	g := &wgen{r: r}
 	type job struct {
@@ -691,6 +753,7 @@ func walkTier(r *vh.Rng, out *vh.Out, tier string) map[string]interface{} {
 	emit := func(sc walkScen, cls string) { jobs = append(jobs, job{sc, cls}) }
 	g.exhaustive(emit)
 	g.compressed(emit)
+	g.mutating(emit)
 	n := 2500
 	if tier == "thorough" {
 		n = 40000
